@@ -4,6 +4,7 @@
    Model/SaveState.v (Collada.save / write at the granularity of the root's children). *)
 From Coq Require Import List Bool Arith NArith.
 From PC Require Import Base.Atoms Base.Outcome Model.Indent Proofs.Indent Model.SaveState Proofs.SaveState.
+From PC Require Import Model.Purity Proofs.Purity Proofs.SaveQueries.
 Import ListNotations.
 
 (* ---- xmlutil.indent *)
@@ -121,6 +122,45 @@ Theorem C03_write_after_failures : forall s es,
   view (smodel (run_events s es)) = view (smodel s).
 Proof. exact write_after_failures. Qed.
 Print Assumptions C03_write_after_failures.
+
+(* ---- saves interleaved with read-only queries (C03 x C17).
+   Over the product of the SaveState model with C17's footprint model (Model/Purity.v, imported
+   read-only): a heap whose observable locations determine the (model, tree) state, queries
+   that write hidden locations only, a heap-level save that is [save] on the state.  The
+   discipline is C17's (measured on the implementation by Check/C17.v) plus the simulation. *)
+Section C03_queries.
+  Variable query : Type.
+  Variable writes : query -> loc -> bool.
+  Variable exec : query -> heap -> heap * val.
+  Variable hsave : heap -> heap * val.
+  Variable absn : heap -> state.
+  Variable out : state -> val.
+  Hypothesis writes_hidden : forall q l, writes q l = true -> observable l = false.
+  Hypothesis frame : forall q h l, writes q l = false -> fst (exec q h) l = h l.
+  Hypothesis save_reads_observable :
+    forall h h', obs_eq h h' -> obs_eq (fst (hsave h)) (fst (hsave h')) /\ snd (hsave h) = snd (hsave h').
+  Hypothesis absn_observable : forall h h', obs_eq h h' -> absn h = absn h'.
+  Hypothesis hsave_sim : forall h, absn (fst (hsave h)) = fst (save (absn h)).
+  Hypothesis hsave_out : forall h, snd (hsave h) = out (fst (save (absn h))).
+
+  (* for every history of saves and queries: the model view is constant; every save writes the
+     bytes of the first save of the never-queried document; from the first save on the state
+     is that save's fixed point (so every save produces the same tree); without a save the
+     state is the initial one *)
+  Theorem C03_saves_and_queries : forall (ops : list (op query)) h,
+    wf_libs (smodel (absn h)) -> single_asset (stree (absn h)) -> healthy (smodel (absn h)) ->
+    let s1 := fst (save (absn h)) in
+    let hf := fst (run query exec hsave h ops) in
+    view (smodel (absn hf)) = view (smodel (absn h)) /\
+    saved_outputs (snd (run query exec hsave h ops)) = map (fun _ => out s1) (saves_only query ops) /\
+    (saves_only query ops <> [] -> absn hf = s1) /\
+    (saves_only query ops = [] -> absn hf = absn h).
+  Proof.
+    exact (saves_and_queries query writes exec hsave absn out writes_hidden frame save_reads_observable
+             absn_observable hsave_sim hsave_out).
+  Qed.
+End C03_queries.
+Print Assumptions C03_saves_and_queries.
 
 (* ---- non-vacuity *)
 
@@ -252,4 +292,27 @@ Proof.
   split; [apply healthy_b_ok; vm_compute; reflexivity|].
   split; [unfold single_asset; vm_compute; intro H; inversion H as [|? H1]; inversion H1|].
   vm_compute. repeat split; reflexivity.
+Qed.
+
+(* the product hypotheses of C03_saves_and_queries are jointly satisfiable with a query that
+   really writes (a hidden cache) and a save that really changes the tree: instance over
+   ex_state, history  query, save, query, query, save, query *)
+Example C03_saves_and_queries_nonvacuous :
+  let ops := [Q IFill; Save; Q IRead; Q IFill; Save; Q IFill] in
+  let h0 : heap := fun _ => 0%N in
+  let r := run iq i_exec (i_hsave ex_state) h0 ops in
+  i_absn ex_state (fst r) = fst (save ex_state) /\
+  i_absn ex_state h0 = ex_state /\ fst (save ex_state) <> ex_state /\
+  saved_outputs (snd r) = [i_out (fst (save ex_state)); i_out (fst (save ex_state))] /\
+  fst r i_cache <> h0 i_cache /\
+  view (smodel (i_absn ex_state (fst r))) = view (smodel ex_state).
+Proof.
+  assert (FX : save (fst (save ex_state)) = (fst (save ex_state), Ok tt)) by (vm_compute; reflexivity).
+  destruct C03_hypotheses_met as (WL & SA & HH).
+  destruct (C03_saves_and_queries iq i_writes i_exec (i_hsave ex_state) (i_absn ex_state) i_out
+              i_writes_hidden i_frame (i_save_obs ex_state) (i_absn_obs ex_state) (i_sim ex_state FX)
+              (i_out_ok ex_state FX) [Q IFill; Save; Q IRead; Q IFill; Save; Q IFill] (fun _ => 0%N) WL SA HH)
+    as (V & O & S & _).
+  cbv zeta. split; [apply S; discriminate|]. split; [reflexivity|].
+  split; [vm_compute; intro X; discriminate X|]. split; [exact O|]. split; [vm_compute; intro X; discriminate X|exact V].
 Qed.
